@@ -1,5 +1,6 @@
 import RLV.Lemmas.DispatchKeys
 import RLV.Model.MLoop
+import RLV.Lemmas.Cpr
 /-! C05 — The result does not depend on how the input is chunked or timed (property theorems).
 
 `dispatch` is the list-level dispatcher of Model/Bind.lean (`dispatchKeys_eq`: it is what
@@ -77,6 +78,20 @@ theorem pushed_back_prefix_then_read_is_the_concatenation (k : Keys) (pre c : Li
     ({ (k.matchedPrefix pre).beforeRead with buf := (k.matchedPrefix pre).buf ++ c } : Keys).buf = pre ++ c := by
   have : pre.isEmpty = false := by cases pre <;> simp_all
   simp [Keys.matchedPrefix, this, hb, Keys.beforeRead]
+
+/-- C05 (cursor reports): keys that arrive in the same read as a cursor position report — typed just
+before it or just after it — are all kept, in order; the report is taken out whole. (`Cpr.extract` is
+the model of `Keys.extractCursorPos`, compared with the real hand-off by `rlv-diff -model cpr`.) -/
+theorem keys_sharing_a_read_with_a_cursor_report_are_kept (a b d1 d2 : List Nat)
+    (ha : ∀ x ∈ a, x ≠ 0x1b) (hb : ∀ x ∈ b, x ≠ 0x1b) (h1 : d1 ≠ []) (h2 : d2 ≠ [])
+    (hd1 : ∀ x ∈ d1, Cpr.isDigit x = true) (hd2 : ∀ x ∈ d2, Cpr.isDigit x = true) :
+    Cpr.extract ((a ++ Cpr.report d1 d2 ++ b).length + 1) (a ++ Cpr.report d1 d2 ++ b)
+      = (some (Cpr.report d1 d2), a ++ b) :=
+  Cpr.keys_around_a_report_are_kept a b d1 d2 ha hb h1 h2 hd1 hd2 _ (Nat.lt_succ_self _)
+
+-- non-vacuity: "ab", the report ESC [ 1 2 ; 3 R, "c"
+example : Cpr.extract 20 [97, 98, 27, 91, 49, 50, 59, 51, 82, 99] = (some [27, 91, 49, 50, 59, 51, 82], [97, 98, 99]) := by
+  decide
 
 -- non-vacuity: the arrow key ESC [ A bound, delivered as "ESC", "[", "A": a prefix, a prefix, the command
 example :
